@@ -39,6 +39,7 @@ type Frame struct {
 	entry    *State         // state at entry (for old())
 	curLoops []*Loop        // unrolled loops currently being executed (innermost last)
 	siteOrd  map[ssa.Instruction]string
+	isaWrites []isaWrite
 	onCall   func(f *Frame, st *State, call ssa.CallInstruction, args []*Val) // hook (assert-at, C06 ...)
 }
 
@@ -333,6 +334,10 @@ func (f *Frame) execInstr(in ssa.Instruction, st *State) bool {
 		t.reach = c.Def("reach", And(st.reach, cond))
 		e := st.clone()
 		e.reach = c.Def("reach", And(st.reach, Not(cond)))
+		if !cond.IsConst() {
+			t.br = append(t.br, brTag{st.reach, cond})
+			e.br = append(e.br, brTag{st.reach, Not(cond)})
+		}
 		f.setEdge(b, 0, t)
 		f.setEdge(b, 1, e)
 		return true
@@ -408,6 +413,7 @@ func (f *Frame) panicSite(st *State, in ssa.Instruction, kind string, cond Term,
 		o.Inputs = top.inputTerms()
 	}
 	st.reach = c.Def("reach", And(st.reach, Not(cond)))
+	st.br = nil
 }
 
 func (f *Frame) topFrame() *Frame {
@@ -539,7 +545,7 @@ func (f *Frame) runDefers(st *State) {
 		no.reach = f.c.Def("reach", And(st.reach, Not(d.cond)))
 		f.doCall(yes, d.call, d.call.Common(), d.args, d.fnv)
 		m := f.c.mergeStates([]*State{yes, no})
-		st.reach, st.mem = m.reach, m.mem
+		st.adopt(m)
 	}
 	f.defers = nil
 }
